@@ -325,13 +325,15 @@ func (s *Store[H]) getRangeByHeight(ctx context.Context, from, to uint64) ([]H, 
 		return nil, fmt.Errorf("header/store: invalid range(%d,%d)", from, to)
 	}
 
-	ctx, done := s.withReadTransaction(ctx)
-	defer done()
-
+	// may wait for the height to be appended: the read transaction is opened only afterwards,
+	// it would pin every later read to what was stored before the wait
 	h, err := s.GetByHeight(ctx, to-1)
 	if err != nil {
 		return nil, err
 	}
+
+	ctx, done := s.withReadTransaction(ctx)
+	defer done()
 
 	ln := to - from
 	headers := make([]H, ln)
